@@ -74,7 +74,17 @@ func (t *Term) String() string {
 		}
 		s = t.A[0].String() + "[" + lo + ":" + hi + "]"
 	case "index":
-		s = t.A[0].String() + "[" + t.A[1].String() + "]"
+		idx := t.A[1].String()
+		hasLoop := false
+		t.A[1].walk(func(u *Term) {
+			if u.Op == "loop" {
+				hasLoop = true
+			}
+		})
+		if hasLoop {
+			idx = "*" // loop induction variable (range index)
+		}
+		s = t.A[0].String() + "[" + idx + "]"
 	case "lookup":
 		s = t.A[0].String() + "[" + t.A[1].String() + "]"
 	case "buf":
